@@ -5,6 +5,7 @@ CONSTANTS
   Slots = 1
   MaxNodes = 7
   MaxCache = 9
+  Cnfs <- NoCnfs
   Ops <- AllOps
   GetIgnoresCompl = FALSE
   GetIgnoresKey = TRUE
